@@ -79,7 +79,8 @@ def val_engine(m):
 def c07(m, tier):
     eng = val_engine(m)
     return [rules_val.rule_val(m, eng), rules_val.rule_sanitizer(m, eng), rules_val.rule_throw_before_write(m),
-            rules_val.rule_getlabel(m), rules_decl.rule_throw(m), rules_struct.rule_label_writes(m), rules_decl.rule_defaults(m), rules_ts.rule_cursor_direction(m)]
+            rules_val.rule_getlabel(m), rules_decl.rule_throw(m), rules_struct.rule_label_writes(m), rules_decl.rule_defaults(m), rules_ts.rule_cursor_direction(m),
+            rules_val.rule_invented_index(m)]
 
 
 def _pair(m, classes, rules, minimum):
@@ -101,14 +102,16 @@ def c01(m, tier):
     return _pair(m, [LDG], ['F-PAIR.N', 'F-PAIR.S'], {'F-PAIR.N': 15, 'F-PAIR.S': 2}) + [
         rules_struct.rule_insertion_guard(m), rules_struct.rule_hasedge(m), rules_struct.rule_full_loops(m, [LDG]),
         rules_struct.rule_observers(m), rules_decl.rule_encapsulation(m), rules_struct.rule_bulk_complete(m),
-        rules_struct.rule_forwarding(m), rules_struct.rule_observer_loops(m), rules_decl.rule_defaults(m), rules_ts.rule_cursor_direction(m)]
+        rules_struct.rule_forwarding(m), rules_struct.rule_observer_loops(m), rules_decl.rule_defaults(m), rules_ts.rule_cursor_direction(m),
+        rules_xport.rule_idx(m)]
 
 
 def c02(m, tier):
     return _pair(m, [LUG], ['F-PAIR.M', 'F-PAIR.N', 'F-KEY'], {'F-PAIR.M': 10, 'F-PAIR.N': 10, 'F-KEY': 7}) + [
         rules_struct.rule_ordered_edge(m), rules_struct.rule_selfloop_convention(m), rules_struct.rule_insertion_guard(m),
         rules_struct.rule_hasedge(m), rules_struct.rule_full_loops(m, [LUG]), rules_struct.rule_observers(m),
-        rules_decl.rule_encapsulation(m), rules_struct.rule_bulk_complete(m), rules_struct.rule_observer_loops(m), rules_decl.rule_defaults(m), rules_ts.rule_cursor_direction(m)]
+        rules_decl.rule_encapsulation(m), rules_struct.rule_bulk_complete(m), rules_struct.rule_observer_loops(m), rules_decl.rule_defaults(m), rules_ts.rule_cursor_direction(m),
+        rules_xport.rule_idx(m)]
 
 
 def c03(m, tier):
@@ -146,7 +149,8 @@ def c06(m, tier):
 def c16(m, tier):
     return [rules_struct.rule_insertion_guard(m)] + _pair(
         m, None, ['F-PAIR.N', 'F-PAIR.T', 'F-PAIR.M', 'F-PAIR.L'],
-        {'F-PAIR.N': 40, 'F-PAIR.T': 17, 'F-PAIR.M': 15, 'F-PAIR.L': 30}) + [rules_ts.rule_sorted_range(m), rules_decl.rule_defaults(m), rules_ts.rule_cursor_direction(m)]
+        {'F-PAIR.N': 40, 'F-PAIR.T': 17, 'F-PAIR.M': 15, 'F-PAIR.L': 30}) + [rules_ts.rule_sorted_range(m), rules_decl.rule_defaults(m), rules_ts.rule_cursor_direction(m),
+         rules_struct.rule_selfloop_convention(m)]
 
 
 def c08(m, tier):
@@ -158,7 +162,7 @@ def c09(m, tier):
 
 
 def c10(m, tier):
-    return [rules_xport.rule_xport(m), rules_val.rule_val(m, val_engine(m)), dropped_cells_result(m, {'sub'})]
+    return [rules_xport.rule_xport(m), rules_val.rule_val(m, val_engine(m)), dropped_cells_result(m, {'sub'}), rules_val.rule_invented_index(m)]
 
 
 def c13(m, tier):
@@ -183,7 +187,7 @@ def c17(m, tier):
     wl, bound, heap = rules_wl.run_searches(m, {'S-LC'})
     heap.require_sites(3, 'heap facts')
     return [rules_ts.rule_typestate(m), heap, rules_io.rule_checked_read(m), rules_val.rule_val(m, val_engine(m)),
-            rules_xport.rule_idx(m), rules_io.rule_wrap(m), rules_io.rule_tokeniser_access(m), rules_decl.rule_init(m), rules_ts.rule_signed_arith(m), rules_ts.rule_sorted_range(m), rules_ts.rule_cursor_direction(m)]
+            rules_xport.rule_idx(m), rules_io.rule_wrap(m), rules_io.rule_tokeniser_access(m), rules_decl.rule_init(m), rules_ts.rule_signed_arith(m), rules_ts.rule_sorted_range(m), rules_ts.rule_cursor_direction(m), rules_io.rule_grow(m, 'text')]
 
 
 def c11(m, tier):
